@@ -1051,7 +1051,8 @@ def ext(ctx):
                 "VdrApi.tla - VDR.Accept / Update / Deactivate / Close; ClientSend.tla - how the Sidetree client delivers a "
                 "request (endpoint discovery with / without cache, one retry, bearer tokens) against local HTTP nodes; Identifiers.tla - the ids "
                 "a resolution is given (pkg/docutil), the document validators, the create result; ClientApi.tla - the four calls of the "
-                "Sidetree client from the options to the request that leaves the client. A disagreement is reported as NONCONFORMANCE with "
+                "Sidetree client from the options to the request that leaves the client; ClientDoc.tla - the caller's document (keys, "
+                "services, also-known-as) to the document of the request. A disagreement is reported as NONCONFORMANCE with "
                 "the extension specification, not as a violation of a property.")
     deep = ctx.tier != "quick"
     _, vs = ctx.tlc_pipe("MC_Versions.tla", "MC_Versions.cfg", ["versions-replay"], workers=4,
@@ -1095,6 +1096,15 @@ def ext(ctx):
         rec["sends"] = 1 - rec["sends"]
 
     ctx.negctl_replay(["clientapi-replay"], ca["_first_edge"], cawrong)
+    _, cd = ctx.tlc_pipe("MC_ClientDoc.tla", "MC_ClientDoc.cfg", ["clientdoc-replay"], workers=1,
+                         label="ClientDoc.tla: the caller's document -> the document of the request: key material x type x purposes, "
+                               "service properties x endpoint x priority x lists, documents with empty / filled lists and a broken key")
+
+    def cdwrong(rec):
+        rec["ok"] = not rec["ok"]
+        rec["members"] = rec["members"][1:] + ["custom"]
+
+    ctx.negctl_replay(["clientdoc-replay"], cd["_first_edge"], cdwrong)
     if deep:
         ctx.tlaps_check("VersionsProofs.tla", needs=("Versions.tla",), abstract_ops=False,
                         label="TLAPS: version matching is an equivalence on all strings and looks at two parts; the "
